@@ -235,6 +235,13 @@ def _abs_join(sep, it):
     return r
 
 
+def m_join(recv, it):
+    """recv.join(it) for any receiver"""
+    if _b.isinstance(recv, (bytes, str, Rope, KRecv)):
+        return _join(recv, it)
+    return recv.join(it)
+
+
 class KRecv:
     """a bytes/str literal used as the receiver of a method call (b''.join(...), '..'.format)"""
     __slots__ = ("v",)
